@@ -14,7 +14,10 @@ Print Assumptions C11_tables_from_one_generation.
    as the Schema() accessor gqlgen validates against - is inside mutex.RLock, and there are such writes and reads.  A change that moves one outside the lock makes this theorem fail to check. *)
 Theorem C11_source_follows_protocol :
   forallb snd table_writes = true /\ forallb snd table_reads_in_execute = true /\ forallb snd table_reads_elsewhere = true /\
-  List.length table_writes = 4 /\ 4 <= List.length table_reads_in_execute.
+  List.length table_writes = 4 /\ 4 <= List.length table_reads_in_execute /\
+  (* no method takes the mutex again while holding it (sync.RWMutex is not reentrant: a reader that re-locks behind a queued
+     writer deadlocks the gateway), and no return statement leaves it held *)
+  reentrant_lock_sites = [] /\ returns_holding_lock = [].
 Proof. vm_compute. repeat split; try reflexivity; repeat constructor. Qed.
 Print Assumptions C11_source_follows_protocol.
 
